@@ -44,7 +44,7 @@ def verif_fingerprint():
 def run_report(script, args, report, timeout):
     """Run harness/<script> <args> (cached by the fingerprints of /repo and /verif) -> (rc, stdout, report dict | None)."""
     fp = core.build_binaries()["fingerprint"]
-    key = hashlib.sha256(("%s|%s|%s|%s" % (fp, verif_fingerprint(), script, " ".join(args))).encode()).hexdigest()[:24]
+    key = hashlib.sha256(("%s|%s|%s|%s|%s" % (fp, verif_fingerprint(), script, " ".join(args), os.environ.get("VERIF_REPLAY_DSL", ""))).encode()).hexdigest()[:24]
     os.makedirs(CACHE, exist_ok=True)
     cpath = os.path.join(CACHE, "script-%s.json" % key)
     if os.path.exists(cpath) and not os.environ.get("VERIF_NO_CACHE"):
